@@ -159,6 +159,7 @@ type Engine struct {
 	uniq          map[uint32]uniqRes
 	tableInit     *ssa.Function
 	skipInit      map[*ssa.Function]func()
+	dirs          map[string][]Value
 	trace         []string
 	curFn         *ssa.Function
 	curInstr      ssa.Instruction
@@ -540,6 +541,9 @@ func (e *Engine) callSSA(caller *frame, pos token.Pos, fn *ssa.Function, args []
 	}
 	if in, ok := intrinsics[name]; ok {
 		return in(e, caller, pos, args)
+	}
+	if strings.HasPrefix(name, "slices.Sort[") {
+		return sortStrings(e, caller, pos, args)
 	}
 	if e.initing {
 		if f, ok := e.skipInit[fn]; ok {
